@@ -389,6 +389,15 @@ def handwritten_features_section(ctx):
                 ctx.spec_failure(dict(case, blocks=mine), "the %s feature carries the marker but nothing was generated for it: %r" % (tag, mine))
             if not any(b == ["pos a o -7;"] or "pos a o -7;" in b for b in mine):
                 ctx.spec_failure(dict(case, blocks=mine), "the hand-written %s rule is gone: %r" % (tag, mine))
+            # ... AT the marker: generated rules before the hand-written one when the marker stands above it, after it when below
+            seq = [x for b in mine for x in b]
+            hand = [k for k, x in enumerate(seq) if x == "pos a o -7;"]
+            auto = [k for k, x in enumerate(seq) if x.startswith("lookup ")]
+            if hand and auto:
+                if mk == "marker" and not max(auto) < hand[0]:
+                    ctx.spec_failure(dict(case, statements=seq), "the marker stands ABOVE the hand-written %s rule but generated rules come after it: %r" % (tag, seq))
+                if mk == "marker-after" and not hand[0] < min(auto):
+                    ctx.spec_failure(dict(case, statements=seq), "the marker stands BELOW the hand-written %s rule but generated rules come before it: %r" % (tag, seq))
         for other in TAGS:
             if other != tag and not any("lookup " in x for b in blocks.get(other, []) for x in b):
                 ctx.spec_failure(dict(case, blocks=blocks.get(other)), "feature %s was not generated although the user wrote only %s" % (other, tag))
